@@ -67,3 +67,13 @@ claim('C18', 'exception-escape set of the handler, CFG ordering (no state write 
       'suppression overridden only by agg_sv.get(id,0) < local over all local entries, steady state never suppressed; new_data '
       '+1/own id/timer armed; sync Interest carries every local entry. Does not decide timers or suppression timing.',
       'user callback on_missing_data does not raise; asyncio timer behaviour')
+
+claim('C14', 'default-argument lint, finite-domain dispatch evaluation over SignatureType, must-pass-through and provenance of key material, wiring checks of the validator composition',
+      'Decides: no stateful default argument in the validator modules; _verify_sig returns the matching verify_* result for every '
+      'signature type that has a shipped signer (derived from the signer classes) and False otherwise, bool on all paths; '
+      'CascadeChecker.validate accepts only through _verify_sig(key_bits, sig_ptrs) with key_bits from {anchor key under '
+      'cert_name == anchor_name, storage.load(cert_name), Content of a fetch of cert_name validated by next_level}, fetch failures '
+      'reject; lvs_validator returns union(validate_name, cascade) and rewires next_level to it; union_checker is a conjunction; '
+      'constructor refusals (self-signed anchor, roots of trust, user functions). Does not decide existence of a chain, '
+      'cryptographic validity or retrieval behaviour.',
+      'Cryptodome verifiers; Checker.check/match semantics (C11/C12)')
